@@ -194,6 +194,8 @@ def getitem(it, obj, idx):
                 return SRef(c.hget(obj, '$t%d' % idx), None)
         if bt == 'Attribute':
             raise Raised('TypeError')      # 'Attribute' object is not subscriptable
+        if is_odict(it, obj):
+            return od_getitem(it, obj, idx)
         if obj.pytype in it.src.classes:
             raise Raised('TypeError')
     if isinstance(obj, SModule) and obj.name in ('signals', 'return_status'):
@@ -206,6 +208,15 @@ def getitem(it, obj, idx):
 
 def getslice(it, obj, lo, hi):
     c = it.c
+    if isinstance(obj, SRef) and base_type(obj.pytype) == 'list' and lo in (None, 0) and hi is not None:
+        # lst[0:k]: the first min(k, len) elements
+        n, items = seq_len(it, obj), seq_items(it, obj)
+        k = c.to_int(hi)
+        r = c.fresh_ref('prefix', obj.pytype)
+        c.hset(r, '$items', items)
+        c.hset(r, '$len', z3.If(k < 0, 0, z3.If(k < n, k, n)))
+        c.hset(r, '$maxlen', z3.IntVal(-1))
+        return r
     if isinstance(obj, SRef) and base_type(obj.pytype) == 'list' and (lo is None or isinstance(lo, int)) and hi is None:
         # lst[k:] for a literal k >= 0: a new list without the first k elements
         k = lo or 0
@@ -241,6 +252,8 @@ def setitem(it, obj, idx, v):
             c.hset(obj, '$has', z3.Store(c.hget(obj, '$has'), k, True))
             c.hset(obj, '$map', z3.Store(c.hget(obj, '$map'), k, c.to_ref(v)))
             return
+        if is_odict(it, obj):
+            return od_setitem(it, obj, idx, v)
     raise Unsupported('subscript store on %r' % (obj,))
 
 
@@ -257,6 +270,20 @@ def key_val(it, k):
 
 def contains(it, container, x):
     c = it.c
+    if is_odict(it, container):
+        return od_contains(it, container, x)
+    if isinstance(container, SRef) and container.pytype == 'odict_values':
+        keys, vals, idx, n = od_parts(it, container)
+        if isinstance(x, (int, SInt)) and not isinstance(x, bool):
+            j = z3.Int('j!ov')
+            return SBool(z3.Exists([j], z3.And(0 <= j, j < n, z3.Select(vals, j) == c.to_int(x))))
+        return False
+    if isinstance(container, SRef) and base_type(container.pytype) == 'list' and elem_type(container.pytype) == 'int':
+        n, items = seq_len(it, container), seq_items(it, container)
+        j = z3.Int('j!li')
+        if isinstance(x, (int, SInt)) and not isinstance(x, bool):
+            return SBool(z3.Exists([j], z3.And(0 <= j, j < n, z3.Select(items, j) == box(c.to_int(x)))))
+        return False
     if isinstance(container, SRef):
         bt = base_type(container.pytype)
         if bt == 'dict' or bt == 'dict_keys':
@@ -325,6 +352,8 @@ def for_setup(it, st, env):
         return ('seq', itv, seq_len(it, itv) if base_type(itv.pytype) == 'deque' else None)
     if isinstance(itv, tuple) and itv and itv[0] == 'range_rev':
         return itv
+    if isinstance(itv, SRef) and itv.pytype == 'odict_items':
+        return ('oditems', itv)
     raise Unsupported('for over %r' % (itv,))
 
 
@@ -334,6 +363,8 @@ def for_havoc(it, st, env, ordinal, state):
     ke = c.to_int(k)
     if state[0] == 'seq':
         c.assume(z3.And(ke >= 0, ke <= seq_len(it, state[1])))
+    elif state[0] == 'oditems':
+        c.assume(z3.And(ke >= 0, ke <= c.hget(state[1], '$len')))
     else:
         c.assume(z3.And(ke >= 0, ke <= state[1]))
 
@@ -352,6 +383,13 @@ def for_next(it, st, env, ordinal, state):
         if not c.branch(ke < n, 'for%d' % ordinal):
             return False
         v = SRef(z3.Select(seq_items(it, obj), ke), elem_type(obj.pytype))
+    elif state[0] == 'oditems':
+        keys, vals, idx, n = od_parts(it, state[1])
+        if not c.branch(ke < n, 'for%d' % ordinal):
+            return False
+        kobj = c.fresh_ref('key', 'str', distinct=False)
+        c.assume(z3.And(kobj.e != NONE, sval(kobj.e) == z3.Select(keys, ke)))
+        v = (kobj, SInt(z3.Select(vals, ke)))
     else:
         n = state[1]
         if not c.branch(ke < n, 'for%d' % ordinal):
@@ -540,6 +578,10 @@ def call_builtin(it, b, args, kwargs, node):
         if isinstance(v, (tuple, str)):
             return len(v)
         if isinstance(v, SRef):
+            if v.pytype == 'str':
+                hook = w.hooks.get('str.len')
+                if hook:
+                    return hook(it, v)
             if base_type(v.pytype) in ('list', 'deque', 'tuple'):
                 return SInt(seq_len(it, v))
             if v.pytype in it.src.classes:
@@ -547,6 +589,8 @@ def call_builtin(it, b, args, kwargs, node):
                 if fi:
                     return it.call_func(it.w_method(fi).bind(v), [], {})
             if base_type(v.pytype) == 'dict':
+                return SInt(c.hget(v, '$len'))
+            if is_odict(it, v):
                 return SInt(c.hget(v, '$len'))
         raise Unsupported('len of %r' % (v,))
     if n in ('max', 'min'):
@@ -616,7 +660,12 @@ def call_builtin(it, b, args, kwargs, node):
                 return SRef(seq.e, 'idmap')
         raise Unsupported('map')
     if n == 'list':
-        return seq_copy(it, args[0], 'list')
+        a0 = args[0]
+        if isinstance(a0, SRef) and a0.pytype in ('odict_values', 'odict_keys'):
+            return od_view_list(it, a0, 'values' if a0.pytype == 'odict_values' else 'keys')
+        return seq_copy(it, a0, 'list')
+    if n.startswith('odict.'):
+        return SRef(obj.e, 'odict_' + n.split('.', 1)[1])
     if n == 'reversed':
         v = args[0]
         if isinstance(v, tuple) and v[0] == 'range':
@@ -681,6 +730,34 @@ def call_builtin(it, b, args, kwargs, node):
         if hook:
             return hook(it, v)
         return False
+    if n == 'json.dumps':
+        # assumed contract of json (validated natively in the thorough tier): loads(dumps(v)) is a value equal to v
+        # for JSON-representable v with string keys.  The text is an opaque str that remembers what it encodes.
+        v = args[0]
+        if not (isinstance(v, SRef) and base_type(v.pytype) == 'dict'):
+            raise Unsupported('json.dumps of %r' % (v,))
+        t = c.fresh_ref('json_text', 'str')
+        c.hset(t, '$json_has', c.hget(v, '$has'))
+        c.hset(t, '$json_map', c.hget(v, '$map'))
+        return t
+    if n == 'json.loads':
+        t = args[0]
+        d = new_dict(it)
+        k = z3.Const('k!js', StrV)
+        has0, map0 = c.hget(t, '$json_has'), c.hget(t, '$json_map')
+        m1 = c.fresh('loaded_map', z3.ArraySort(StrV, Ref))
+        c.assume(z3.ForAll([k], z3.Select(m1, k) == jcopy(z3.Select(map0, k)), patterns=[z3.Select(m1, k)]))
+        c.hset(d, '$has', has0)
+        c.hset(d, '$map', m1)
+        x = z3.Const('x!js', Ref)
+        c.assume(z3.ForAll([x], z3.And((jcopy(x) == NONE) == (x == NONE), sval(jcopy(x)) == sval(x),
+                                       is_str(jcopy(x)) == is_str(x)), patterns=[jcopy(x)]))
+        return d
+    if n == 're.match':
+        hook = w.hooks.get('re.match')
+        if hook:
+            return hook(it, args)
+        raise Unsupported('re.match without a model')
     if n == 're.search':
         r = SRef(c.fresh('m', Ref), 'match')
         hook = w.hooks.get('re.search')
@@ -689,6 +766,11 @@ def call_builtin(it, b, args, kwargs, node):
         return r
     if n.startswith('str.'):
         return str_call(it, n.split('.', 1)[1], obj, args, kwargs)
+    if n.startswith('match.'):
+        hook = w.hooks.get('match.' + n.split('.', 1)[1])
+        if hook:
+            return hook(it, obj, args)
+        raise Unsupported(n)
     if n.startswith('subq.'):
         hook = w.hooks.get('subq')
         if hook is None:
@@ -742,6 +824,8 @@ def call_builtin(it, b, args, kwargs, node):
 
 
 str_of = z3.Function('str_of', Ref, StrV)
+is_str = z3.Function('is_str', Ref, z3.BoolSort())      # dynamic type test for references of unknown static type
+jcopy = z3.Function('json_equal_copy', Ref, Ref)     # "a value equal to x", as json.loads(json.dumps(x)) yields
 
 
 def type_is(it, o, k, sub=False):
@@ -851,6 +935,8 @@ def seq_call(it, obj, meth, args, kwargs):
 
 def elem_eq(it, seq, a, b):
     et = elem_type(seq.pytype)
+    if et == 'int':
+        return a == b           # both boxed ints
     if et in ('LockingDeque', 'state', 'fn', 'Thread'):
         return a == b
     if et == 'str':
@@ -898,6 +984,9 @@ def lock_call(it, obj, meth):
     held, ep = c.hget(obj, 'held'), c.hget(obj, 'epoch')
     mon = c.pyghost.get(('monitor', obj.e.sexpr()))     # (on_enter, invariant) of the monitor this lock protects
     if meth in ('acquire', '__enter__'):
+        c.pyghost.setdefault('locks_seen', [])
+        if not any(obj.e.eq(l.e) for l in c.pyghost['locks_seen']):
+            c.pyghost['locks_seen'].append(obj)
         if mon is not None:
             # entering from outside: the protected state is whatever the last owner left, i.e. the monitor invariant
             mon[0](it, held == 0)
@@ -940,3 +1029,103 @@ def thread_call(it, obj, meth, args, kwargs):
         c.hset(obj, 'alive', z3.BoolVal(False))
         return None
     raise Unsupported('Thread.%s' % meth)
+
+
+# ------------------------------------------------------------------ ordered dict str -> int (the signal registry)
+# view: $okeys[i] (insertion order), $ovals[i], $len, plus the index map $oidx[key] = position+1 (0: absent).
+# Class invariant linking them (stated by the sidecar, assumed in pre-states, proved in post-states):
+#   forall s. idx[s] != 0 -> 1 <= idx[s] <= n /\ keys[idx[s]-1] == s ;  forall i in [0,n). idx[keys[i]] == i+1
+def is_odict(it, obj):
+    return isinstance(obj, SRef) and obj.pytype in it.src.classes and \
+        any(b in ('OrderedDict', 'OrderedDictWithParams') for b in it.src.mro(obj.pytype)[1:] + it.src.classes[obj.pytype].bases)
+
+
+def od_parts(it, obj):
+    c = it.c
+    return c.hget(obj, '$okeys'), c.hget(obj, '$ovals'), c.hget(obj, '$oidx'), c.hget(obj, '$len')
+
+
+def od_key(it, k):
+    c = it.c
+    if isinstance(k, str):
+        return c.strconst(k)
+    if isinstance(k, SRef) and k.pytype in ('str', None):
+        return sval(k.e)
+    return None
+
+
+def od_guard(it, obj, how):
+    """Writers of a registry declared `guarded` must hold some lock, and the membership test / length read that
+    decides the write must lie in the same critical section (readers rely on the registry only ever growing)."""
+    c = it.c
+    if obj.pytype not in getattr(it.w, 'guarded_registries', ()):
+        return
+    locks = c.pyghost.get('locks_seen', [])
+    held = z3.Or([c.hget(l, 'held') > 0 for l in locks]) if locks else z3.BoolVal(False)
+    ep = z3.Sum([c.hget(l, 'epoch') for l in locks]) if locks else z3.IntVal(0)
+    k = ('od_read_epoch', obj.e.sexpr(), len(c.frames))
+    if how == 'read':
+        c.pyghost[k] = (held, ep)
+        return
+    where = it.where()
+    c.prove('%s:guarded/registry-insert-holds-a-lock' % where, held, tags=('lock',), assume_after=False)
+    if k in c.pyghost:
+        h0, e0 = c.pyghost[k]
+        c.prove('%s:atomic/registry-test-and-insert-in-one-critical-section' % where, z3.And(h0, e0 == ep),
+                tags=('lock',), assume_after=False)
+
+
+def od_contains(it, obj, k):
+    kv = od_key(it, k)
+    od_guard(it, obj, 'read')
+    if kv is None:
+        return False                       # a non-string is never a key of the registry
+    keys, vals, idx, n = od_parts(it, obj)
+    return SBool(z3.Select(idx, kv) != 0)
+
+
+def od_getitem(it, obj, k):
+    c = it.c
+    kv = od_key(it, k)
+    keys, vals, idx, n = od_parts(it, obj)
+    if kv is None or not c.branch(z3.Select(idx, kv) != 0, 'odict-has-key'):
+        raise Raised('KeyError')
+    return SInt(z3.Select(vals, z3.Select(idx, kv) - 1))
+
+
+def od_setitem(it, obj, k, v):
+    c = it.c
+    kv = od_key(it, k)
+    if kv is None:
+        raise Unsupported('registry key %r' % (k,))
+    keys, vals, idx, n = od_parts(it, obj)
+    val = c.to_int(v)
+    od_guard(it, obj, 'write')
+    if c.branch(z3.Select(idx, kv) != 0, 'odict-update'):
+        c.hset(obj, '$ovals', z3.Store(vals, z3.Select(idx, kv) - 1, val))
+    else:
+        c.hset(obj, '$okeys', z3.Store(keys, n, kv))
+        c.hset(obj, '$ovals', z3.Store(vals, n, val))
+        c.hset(obj, '$oidx', z3.Store(idx, kv, n + 1))
+        c.hset(obj, '$len', n + 1)
+
+
+def od_view_list(it, obj, which):
+    """list(d.keys()) / list(d.values()): a new list in insertion order."""
+    c = it.c
+    keys, vals, idx, n = od_parts(it, obj)
+    r = c.fresh_ref('odlist', 'list<%s>' % ('str' if which == 'keys' else 'int'))
+    A = c.fresh('odlist_items', IntArr)
+    i = z3.Int('i!od')
+    if which == 'keys':
+        c.assume(z3.ForAll([i], z3.Implies(z3.And(0 <= i, i < n), z3.And(sval(z3.Select(A, i)) == z3.Select(keys, i),
+                                                                         z3.Select(A, i) != NONE)),
+                           patterns=[z3.Select(A, i)]))
+    else:
+        c.assume(z3.ForAll([i], z3.Implies(z3.And(0 <= i, i < n), z3.Select(A, i) == box(z3.Select(vals, i))),
+                           patterns=[z3.Select(A, i)]))
+        c.assume(z3.ForAll([i], unbox(box(i)) == i, patterns=[box(i)]))
+    c.hset(r, '$items', A)
+    c.hset(r, '$len', n)
+    c.hset(r, '$maxlen', z3.IntVal(-1))
+    return r
